@@ -127,7 +127,7 @@ fn expected_render(
     };
     if export_id.is_empty() {
         let t = doc_target.ok_or("target size is zero")?;
-        let mut pm = tiny_skia::Pixmap::new(t.width(), t.height()).ok_or("canvas")?;
+        let mut pm = tiny_skia::Pixmap::new(t.width(), t.height()).ok_or("target size is too large")?;
         if let Some(c) = bg {
             pm.fill(c);
         }
@@ -137,8 +137,17 @@ fn expected_render(
             let content = tree.root().layer_bounding_box();
             let canvas = tiny_skia::IntRect::from_xywh(0, 0, pm.width(), pm.height()).ok_or("canvas rect")?;
             if let Some(dev) = content.transform(ts) {
-                let r = dev.to_int_rect();
-                if let Some(cut) = canvas.intersect(&r) {
+                // the integer device box; a box that does not fit i32 cannot be trimmed to (the image is kept as it is)
+                let r = tiny_skia::IntRect::from_xywh(
+                    dev.x().floor() as i32,
+                    dev.y().floor() as i32,
+                    std::cmp::max(1, dev.width().ceil() as u32),
+                    std::cmp::max(1, dev.height().ceil() as u32),
+                );
+                if r.is_none() {
+                    notes.push("content-box-outside-i32".to_string());
+                }
+                if let Some(cut) = r.and_then(|r| canvas.intersect(&r)) {
                     if let Some(c) = pm.clone_rect(cut) {
                         notes.push(format!("trim {},{} {}x{}", cut.x(), cut.y(), cut.width(), cut.height()));
                         return Ok(Expected { pixmap: c, notes });
@@ -180,7 +189,12 @@ fn expected_render(
         if (ox, oy) != (bbox.x() as i32, bbox.y() as i32) {
             notes.push(format!("scaled-offset {},{} vs unscaled {},{}", ox, oy, bbox.x() as i32, bbox.y() as i32));
         }
-        page.draw_pixmap(ox, oy, pm.as_ref(), &tiny_skia::PixmapPaint::default(), tiny_skia::Transform::default(), None);
+        // a node whose offset box does not fit i32 lies outside the page: nothing to draw
+        if tiny_skia::IntRect::from_xywh(ox, oy, pm.width(), pm.height()).is_some() {
+            page.draw_pixmap(ox, oy, pm.as_ref(), &tiny_skia::PixmapPaint::default(), tiny_skia::Transform::default(), None);
+        } else {
+            notes.push("node-offset-outside-i32".to_string());
+        }
         return Ok(Expected { pixmap: page, notes });
     }
     Ok(Expected { pixmap: pm, notes })
